@@ -45,7 +45,7 @@ var pcNames = [...]string{"ObjTool.Open", "ObjFile.SourceLine", "symbolz POST"}
 // failure kinds per call kind
 var c12Fails = map[int][]string{
 	pcOpen:       {"error", "wrong-build-id", "empty-build-id"},
-	pcSourceLine: {"error", "empty", "empty-names", "zero-lines", "many-frames"},
+	pcSourceLine: {"error", "empty", "empty-names", "zero-lines", "many-frames", "blank-frame", "all-blank"},
 	pcPost:       {"transport-error", "status-500", "status-500-pprof", "malformed", "other-addresses", "truncated", "partial", "non-hex", "empty-body"},
 }
 
@@ -147,7 +147,13 @@ func (f *c12file) SourceLine(addr uint64) ([]plugin.Frame, error) {
 			frames[i].Func, frames[i].File = "", ""
 		case "zero-lines":
 			frames[i].Line, frames[i].StartLine = 0, 0
+		case "all-blank":
+			frames[i] = plugin.Frame{}
 		}
+	}
+	if fk == "blank-frame" {
+		// an unresolved inlined frame in the middle of the stack: nothing known about it
+		frames = append(frames[:1], append([]plugin.Frame{{}}, frames[1:]...)...)
 	}
 	return frames, nil
 }
